@@ -79,10 +79,11 @@ func runWFault(payload string) string {
 
 // faultReader delivers data[:k] freely, then fails (once, or forever).
 type faultReader struct {
-	data   []byte
-	pos, k int
-	stop   bool
-	failed bool
+	data     []byte
+	pos, k   int
+	stop     bool
+	failed   bool
+	withData bool // the call that delivers the last bytes before k returns the error along with them
 }
 
 func (r *faultReader) Read(p []byte) (int, error) {
@@ -102,17 +103,21 @@ func (r *faultReader) Read(p []byte) (int, error) {
 	}
 	n := copy(p, r.data[r.pos:lim])
 	r.pos += n
+	if r.withData && r.pos == r.k && !r.failed {
+		r.failed = true
+		return n, errInjected
+	}
 	return n, nil
 }
 
-// rfault: "<c|j> <hex> | <k> <stop|once>"
+// rfault: "<c|j> <hex> | <k> <stop|once|stopd>"
 func runRFault(payload string) string {
 	head, tail, _ := strings.Cut(payload, "|")
 	fs := strings.Fields(head)
 	in, _ := hex.DecodeString(fs[1])
 	tf := strings.Fields(tail)
 	k, _ := strconv.Atoi(tf[0])
-	rd := &faultReader{data: in, k: k, stop: tf[1] == "stop"}
+	rd := &faultReader{data: in, k: k, stop: tf[1] == "stop" || tf[1] == "stopd", withData: tf[1] == "stopd"}
 	budget := 2*len(in) + 10
 	var class string
 	var toks []string
@@ -223,6 +228,10 @@ func genRFault(g *G, tier string, emit func(string)) {
 		for k := 0; k <= n; k++ {
 			emit(fmt.Sprintf("%s | %d stop", d, k))
 			emit(fmt.Sprintf("%s | %d once", d, k))
+			if k > 0 && k < n {
+				// the same fail-stop fault, announced together with the last bytes delivered (a legal io.Reader)
+				emit(fmt.Sprintf("%s | %d stopd", d, k))
+			}
 		}
 	}
 }
